@@ -1,7 +1,8 @@
 (** C01 — property theorems only.  Each is closed by [exact] of a lemma of Proofs*.v / Refuted.v and
     followed by [Print Assumptions]. *)
 From V Require Import Base.Util Gql.Ast Writer.Wop Ts.TsType Ts.TsDen
-     C01.Model C01.Spec C01.Corr C01.Witness C01.Proofs C01.Refuted C01.TsLemmas C01.TreeDen C01.EnvDen.
+     C01.Model C01.Spec C01.Corr C01.Witness C01.Proofs C01.Refuted C01.TsLemmas C01.TreeDen C01.EnvDen
+     C01.PlainBase C01.PlainCore C01.PlainSchema C01.PlainFinal.
 
 (** Execute_spec ⊆ Ref_local: for every schema, fragment list, assignment of the boolean variables,
     parent type, selection set and value (spec side only; unbounded) *)
@@ -41,3 +42,43 @@ Theorem C01_has_type_fuel_monotone : forall E f f' t v b,
   f <= f' -> has_type_b E f t v = Some b -> has_type_b E f' t v = Some b.
 Proof. exact has_type_b_le. Qed.
 Print Assumptions C01_has_type_fuel_monotone.
+
+(** emit_eq_ref_local_partial: for a definition whose selection set is PLAIN (fields only, pairwise
+    distinct response keys, no alias of/named __typename; recursively — variables, literal
+    conditions, aliases, __typename, list/non-null nesting, object/interface/union parents are all
+    allowed), over a schema with unique type names, the type the model emits admits exactly Ref_local
+    (JSON values).  [tree_ok] is a computable check of the model's own output. *)
+Theorem C01_emit_eq_ref_local_partial : forall S D d T sels t v,
+  nodup_types S = true ->
+  def_target S d = Some (T, sels) ->
+  plain_list sels = true ->
+  emit_type default_options S D d = Ok t ->
+  (forall tree, def_tree S D d = Ok tree -> tree_ok S tree = true) ->
+  json v = true ->
+  (In_type (schema_env S) t v <-> exists f, ref_local_b S (sp_frags D) (doc_fuel D) f T sels v = true).
+Proof. exact emit_eq_ref_local_partial. Qed.
+Print Assumptions C01_emit_eq_ref_local_partial.
+
+(** C01 on plain definitions: every Execute_spec response (any assignment, any data choices, any
+    size) is admitted by the emitted type *)
+Theorem C01_response_admitted_partial : forall S D d T sels t sg f v,
+  nodup_types S = true -> def_target S d = Some (T, sels) -> plain_list sels = true ->
+  emit_type default_options S D d = Ok t ->
+  (forall tree, def_tree S D d = Ok tree -> tree_ok S tree = true) ->
+  json v = true ->
+  exec_b S (sp_frags D) (doc_fuel D) sg f T sels v = true ->
+  In_type (schema_env S) t v.
+Proof. exact response_admitted_partial. Qed.
+Print Assumptions C01_response_admitted_partial.
+
+(** the guards are satisfiable by a document with variables, aliases, __typename, a list, an
+    interface and a union, and Execute_spec is inhabited on it *)
+Theorem C01_partial_guards_satisfiable :
+  nodup_types w_schema = true /\
+  plain_list (sels_of w_plain) = true /\
+  (exists tree, def_tree w_schema w_plain (first_def w_plain) = Ok tree /\ tree_ok w_schema tree = true) /\
+  def_target w_schema (first_def w_plain) = Some (s "Query", sels_of w_plain) /\
+  exists v, json v = true /\
+            exec_b w_schema [] 8 [(s "v", false); (s "w", false)] 8 (s "Query") (sels_of w_plain) v = true.
+Proof. exact plain_guards_satisfiable. Qed.
+Print Assumptions C01_partial_guards_satisfiable.
